@@ -163,14 +163,14 @@ def run_c07(ctx):
         raise Fatal("TLC emitted no C07 requests:\n%s" % r.out[-2000:])
     reqs.sort(key=lambda q: json.dumps(q, sort_keys=True))
     if quick:
-        # every request of the core set that can leave the trees on the pinned tree is kept; of the rest a seeded 40 %
+        # every request of the core set that can leave the trees on the pinned tree is kept; of the rest a seeded 30 %
         keep = []
         for i, q in enumerate(reqs):
             h = (i * 7919 + ctx.seed * 104729) % 10
             if q["kind"] == "upfolder":      # transfers (3 s each, run in parallel): all one-segment items, 30 % of the rest
                 top = q["item"]["count"] <= 1 or h < 3
             else:
-                top = q["kind"] in ("rename", "seq") or (q["kind"] != "acct" and q.get("path") == [-1]) or h < 4
+                top = q["kind"] in ("rename", "seq") or (q["kind"] != "acct" and q.get("path") == [-1]) or h < 3
                 if q["kind"] == "newfolder" and _is_mix_path(q.get("path")):
                     top = True                   # (multi-item paths mixing a sub-folder, "..", "../.." and ".": all kept)
                 if q.get("sp", 0) != 0 and q["kind"] in ("newfolder", "upload", "list", "alias", "upfolder", "dlfolder"):
